@@ -44,6 +44,7 @@ TABLE = {
     "dyne": (1.0, _d(1, 1, -2)), "newton": (1.0e5, _d(1, 1, -2)),
     "barye": (1.0, _d(-1, 1, -2)), "pascal": (10.0, _d(-1, 1, -2)),
     "hertz": (1.0, _d(0, 0, -1)),
+    "percent": (0.01, NONE),
     "radiation_constant": (7.56591469318689378e-15, _d(-1, 1, -2, -4)),
     # Gaussian unit of magnetic field, as pint's cgs registry reduces it
     "gauss": (1.0, (F(-1, 2), F(1, 2), F(-1), F(0))),
@@ -59,7 +60,9 @@ FAMILIES = {
     "energy": ["erg", "J", "eV"],
     "luminosity": ["erg/s", "W", "L_sun", "L_bol0"],
     "temperature": ["K"],
-    "dimensionless": ["dimensionless"],
+    "frequency": ["Hz", "1/s", "1/yr"],
+    "wavenumber": ["1/cm", "1/m"],
+    "dimensionless": ["dimensionless", "cm/m", "km/m", "percent", "g/kg"],
 }
 FAMILY_OF = {u: fam for fam, us in FAMILIES.items() for u in us}
 ALL_UNITS = [u for us in FAMILIES.values() for u in us]
@@ -73,7 +76,7 @@ SYMBOL = {
     "Gyr": "gigayear", "K": "kelvin", "erg": "erg", "J": "joule", "eV": "electron_volt", "W": "watt",
     "L_sun": "solar_luminosity", "L_bol0": "bolometric_luminosity", "dyn": "dyne", "N": "newton",
     "Ba": "barye", "Pa": "pascal", "Hz": "hertz", "ar": "radiation_constant", "G": "gauss",
-    "dimensionless": None,
+    "dimensionless": None, "percent": "percent", "1": None,
 }
 
 
